@@ -8,7 +8,7 @@ package jsondb
 // ---------------------------------------------------------------------------------------------
 // Names: every path is a function of the DAG file's full path (C06: per-DAG confinement).
 
-//@ ufunc md5_hex(s string) string
+//@ sfunc md5_hex(s string) string = hex_of(md5_sum(s))
 //@ sfunc dag_prefix(f string) string = trim_suffix(path_base(f), path_ext(f))
 //@ sfunc hist_dir(s *JSONDB, f string) string = path_join(s.location, dag_prefix(f) + "-" + md5_hex(f))
 //@ sfunc hist_prefix(s *JSONDB, f string) string = path_join(hist_dir(s, f), dag_prefix(f))
@@ -27,13 +27,13 @@ package jsondb
 //@   props C06 C18
 //@   ensures [C06 prefix_is_the_file_name_without_extension] r == dag_prefix(dagFile)
 
-// getDirectory hashes the full path of the DAG file (md5, hex): trusted contract, audited by a bounded stand-in
-// that executes the real function (byte conversions and hash state are outside the modelled subset).
+// getDirectory hashes the full path of the DAG file (md5, hex) — verified against the assumed contracts of
+// crypto/md5 and encoding/hex (a hash object accumulates what is written to it; digest and hex form are functions
+// of that text): the directory name is a function of the file's full path and of nothing else.
 //@ fn (*JSONDB).getDirectory(s, name, prefix) (r)
 //@   props C06 C18
-//@   trusted
 //@   modifies heap(alloc)
-//@   ensures r == path_join(s.location, prefix + "-" + md5_hex(name))
+//@   ensures [C06,C18 history_directory_is_named_after_the_full_path] r == path_join(s.location, prefix + "-" + md5_hex(name))
 
 //@ fn (*JSONDB).prefixWithDirectory(s, dagFile) (r)
 //@   props C06 C18
